@@ -36,7 +36,7 @@ MALFORMED = [b"", b"\r\n", b"250\r\n", b"250", b"25", b"250 ok\n", b"250 ok", b"
              b"250 see\nRFC-5321 4.2\r\n", b"SSH-2.0-OpenSSH_9.6\r\n", b"+OK-POP3 ready\r\n", b"ERR-busy\r\n", b"250 a\n250-b\r\n", b"550 no\nxyz-\r\n"]
 
 EHLO_LINES = [b"8BITMIME", b"SMTPUTF8", b"STARTTLS", b"AUTH PLAIN", b"AUTH LOGIN", b"AUTH PLAIN LOGIN XOAUTH2", b"AUTH XOAUTH2 FOO", b"AUTH", b"auth plain",
-              b"8bitmime", b"SIZE 1000", b"PIPELINING", b"AUTH=PLAIN", b" 8BITMIME", b"8BITMIME ", b"AUTH\tLOGIN", b"AUTH\xc2\xa0PLAIN", b"", b"X 8BITMIME"]
+              b"8bitmime", b"SIZE 1000", b"PIPELINING", b"UTF8SMTP", b"SMTPUTF", b"8BITMIMEX", b"STARTTLSX", b"AUTH=PLAIN", b" 8BITMIME", b"8BITMIME ", b"AUTH\tLOGIN", b"AUTH\xc2\xa0PLAIN", b"", b"X 8BITMIME"]
 
 
 def rand_ehlo(rng, must=()):
